@@ -9,3 +9,5 @@ open O2P.Gate
 #print axioms cover_spec
 #print axioms cover_sound
 #print axioms cover_sound_universe
+#print axioms or_inference_sound
+#print axioms or_test_spec
